@@ -16,7 +16,7 @@ package compress
 //verif:entry VerifC08Stream3 tier=thorough conf=4
 //verif:entry VerifC08BitIO conf=6
 //verif:bound H1v/H1t (quick) the value half and the timestamp half of one step separately, each from an arbitrary valid codec state, all 2^64 values / all admissible timestamps; the combined step H1 runs in the thorough tier
-//verif:bound quick tier of the reuse-window value step: window leading-zero count in {0,5,12,31,32,40,63}, every trailing-zero count; thorough: all 2080 windows
+//verif:bound quick tier of the reuse-window value step: window leading-zero count in {0,12,31,32,63}, every trailing-zero count; thorough: all 2080 windows
 //verif:bound quick tier of H3: the second value differs from the first in its low 6 bits only (21 leading/trailing-zero window shapes); thorough: unrestricted (2080 shapes), 3 points
 //verif:bound H1 one compress/decompress step from an arbitrary valid codec state: all 2^64 value bit patterns, all uint32 timestamps with |delta-of-delta| < 2^31, stream bit offset 0..7
 //verif:bound H3 NewCompressor+Compress x2 (quick) / x3 (thorough) + finish, decoded through NewDecompressIterator: all values, timestamps header<=t0<=t1(<=t2) with t0-header < 2^14-1 and steps < 2^31
@@ -71,7 +71,7 @@ func verifC08ValueStep(mode int) {
 	if mode == 2 {
 		// the window is enumerated (2080 shapes) so that shift amounts are constants
 		if zz.Tier() == 0 {
-			lzs := []uint8{0, 5, 12, 31, 32, 40, 63}
+			lzs := []uint8{0, 12, 31, 32, 63}
 			c.leadingZeros = lzs[zz.Choice("c.lz", len(lzs))]
 		} else {
 			c.leadingZeros = uint8(zz.Choice("c.lz", 64))
